@@ -16,6 +16,9 @@ PARTIAL = ["coeff normalisation is specified (and modelled) for the autocorrelat
            "with norm='coeff' is outside the statement",
            "records longer than 600 samples crossed with the norms / lag ranges are checked against the definition "
            "(oracle) only: the exact-rational model needs seconds per record there",
+           "block-boundary records (N = q*2^k + r, maxlags <= 8) longer than 2100 samples (one record in 4096..4104 per run "
+           "excepted) and every data matrix of such a record are checked against the definition (oracle) only, for the same reason; "
+           "their lag range is 0..8 (CORRELATION costs O(N * maxlags) interpreter steps); lengths around 2^16 in the thorough tier only",
            "error paths are outside the statement; a few rejected calls (CORRELATION maxlags >= N, xcorr unequal lengths or "
            "maxlags > N, corrmtx unknown method) are compared with the model's error kind only.  xcorr(maxlags=N) passes the "
            "code's own assertion and then raises IndexError: not generated"]
@@ -31,7 +34,18 @@ RULE = ("random real/complex data (dyadic rationals, integers, constants), equal
         "int64, int16, int8, uint8 at full range, float32 / complex64 against double), mixed real/complex/integer pairs of "
         "equal and unequal lengths; default arguments, positional arguments, explicit y = copy of x; all-zero records; "
         "read-only non-owning views; every call is followed by a bytes/shape comparison of its arguments (non-mutation); "
-        "corrmtx: 5 methods x orders m in [0, N-1], N >= 1; non-trivial = N >= 2")
+        "corrmtx: 5 methods x orders m in [0, N-1], N >= 1; non-trivial = N >= 2; "
+        "long records at and just above block-size boundaries N = q*2^k + r, 2^k in {1024, 2048, 4096, 8192}, q in {1, 2, 3}, "
+        "r in {0, 1, 2, 3, 5, 8} (quick: two residues per (2^k, q), rotating with the run, every 2^k with all six residues = 24 "
+        "lengths; thorough: all 72 per round plus two lengths 2^16 + r), maxlags 8 or r + 1 so that the number of products N - k "
+        "of the lags sweeps across the boundary; mode (auto / cross equal / cross y shorter / cross x shorter, the shorter record "
+        "1..3 samples short or about N/3) x norm rotating, real / complex and dyadic / generic doubles (noise, tone, trend, "
+        "per-sample dynamic range 2^-20..2^20) by balanced random permutations, one pair in four mixing real and complex: "
+        "CORRELATION for every length, xcorr for the equal-length ones, the corrmtx 'autocorrelation' Gram clause (order = maxlags) "
+        "for every other length; exact model up to N = 2100 and for one record in 4096..4104 per run; "
+        "in EVERY CORRELATION / xcorr / Gram case each lag is compared with its own defined value at 1e-10 relative to "
+        "max(|e[k]|, 1e-3 * sum_n |x[n+k]| |y[n]| / divisor [, 1e-3 * ||x|| ||y|| / divisor for the FFT-based xcorr]) in addition to the "
+        "max-norm comparison (tags blk:*)")
 
 # kinds that only compare the error kind of a rejected call with the model: no amplitude / stride variants
 NO_VARY = {"corr_err", "xcorr_err", "corrmtx_err"}
@@ -64,6 +78,71 @@ def _ref(x, y, k, norm):
     if norm == "coeff":  # autocorrelation only
         return s / (N * np.mean(np.abs(xx) ** 2))
     raise ValueError(norm)
+
+
+# --------------------------------------------------------------------------------------------------
+# per-lag comparison.  The max-norm comparisons below are relative to the LARGEST lag value (r[0] for an autocorrelation):
+# one wrong low-power lag (a product dropped or counted twice at a block boundary of a long record, a wrong divisor at one
+# lag) may stay below them.  Every lag k is therefore also compared with its own defined value e[k], at relative
+# tolerance tol on the scale
+#       max(|e[k]|,  LAGFLOOR * B[k],  gfloor * G[k])
+#   B[k] = sum_n |x[n+k]| |y[n]| / divisor   (the lag's own absolute sum: floor for lags whose products cancel)
+#   G[k] = ||x||_2 ||y||_2 / divisor         (bound of every lag; round-off scale of an FFT-based correlation)
+# gfloor = 0 for the explicit lag sums (CORRELATION, the corrmtx Gram matrix: a lag without non-zero products must be
+# exactly zero) and 1e-3 for xcorr (scipy.signal.correlate switches to the FFT on long records).
+# Measured on the unchanged code (/tmp/c09_probe.py: N = 1024 .. 65539, noise / int / const / trend / tone / dyn data,
+# dyadic and generic doubles, amplitudes 2^-30 .. 2^23, and the quick + thorough runs of this module):
+#   CORRELATION  worst |r-e| / max(|e|, 1e-3 B)          = 1.2e-13   (tol 1e-10: margin 800x)
+#   Gram matrix  worst                                    = 2.5e-14   (margin 4000x)
+#   xcorr        worst |r-e| / max(|e|, 1e-3 B)          = 3.6e-13   (margin 270x);   worst |r-e| / G = 9.7e-16, i.e.
+#                1e-10 * gfloor = 1e-13 leaves a margin of 100x for the lags whose own scale is below 1e-3 G
+LAGFLOOR = 1e-3
+TOL_LAG = 1e-10
+
+
+def _pad2(x, y):
+    N = max(len(x), len(y))
+    xx = np.zeros(N, dtype=complex)
+    yy = np.zeros(N, dtype=complex)
+    xx[: len(x)] = x
+    yy[: len(y)] = y
+    return xx, yy
+
+
+def _lagscale(x, y, ks, norm, gfloor):
+    """per-lag scale for the lags ks (k >= 0: r_xy[k]; k < 0: conj(r_yx[-k]), same absolute sums with x and y swapped)"""
+    xx, yy = _pad2(x, y)
+    N = len(xx)
+    ax, ay = np.abs(xx), np.abs(yy)
+    g = float(np.sqrt(np.sum(ax ** 2))) * float(np.sqrt(np.sum(ay ** 2)))
+    B = np.zeros(len(ks))
+    d = np.ones(len(ks))
+    for i, k in enumerate(ks):
+        a = abs(int(k))
+        B[i] = float(np.dot(ax[a:N], ay[: N - a])) if k >= 0 else float(np.dot(ay[a:N], ax[: N - a]))
+        if norm == "biased":
+            d[i] = N
+        elif norm == "unbiased":
+            d[i] = N - a
+        elif norm == "coeff":      # autocorrelation only
+            d[i] = N * float(np.mean(ax ** 2))
+    return B / d, np.full(len(ks), g) / d * gfloor
+
+
+def _perlag(r, e, B, Gf, tol):
+    """None, or (index, |r-e|, scale) of the lag that is worst relative to its own scale"""
+    r = np.asarray(r).astype(complex)
+    e = np.asarray(e).astype(complex)
+    if r.shape != e.shape or not (np.all(np.isfinite(r)) and np.all(np.isfinite(e))):
+        return None                 # reported by the max-norm comparison
+    sc = np.maximum(np.maximum(np.abs(e), LAGFLOOR * B), Gf)
+    err = np.abs(r - e)
+    bad = err > tol * sc
+    if not np.any(bad):
+        return None
+    q = np.where(bad, err / np.maximum(sc, 1e-300), 0.0)
+    i = int(np.argmax(q))
+    return i, float(err[i]), float(sc[i])
 
 
 def _nm(norm):
@@ -159,6 +238,13 @@ def _oracle_corr(tol):
             out.append("CORRELATION(%s, norm=%s, lens %d/%d, maxlags=%s, call=%s, %s/%s) differs from the definition: got %s expected %s" % (
                 "auto" if p["auto"] else "cross", p["norm"], len(x), len(y), p["maxlags"], p.get("call", "kw"),
                 _cls(p["x"]), _cls(p.get("y")), np.round(r[:4], 6), np.round(e[:4], 6)))
+        B, Gf = _lagscale(x, y, range(ml + 1), p["norm"], 0.0)
+        w = _perlag(r, e, B, Gf, max(tol, TOL_LAG))
+        if w:
+            out.append("CORRELATION(%s, norm=%s, lens %d/%d, maxlags=%s, call=%s, %s/%s) lag %d differs from its definition relative to "
+                       "that lag's own scale: got %r expected %r (|diff| %.3e, scale %.3e, lag sum over %d products)" % (
+                           "auto" if p["auto"] else "cross", p["norm"], len(x), len(y), p["maxlags"], p.get("call", "kw"),
+                           _cls(p["x"]), _cls(p.get("y")), w[0], complex(r[w[0]]), complex(e[w[0]]), w[1], w[2], N - w[0]))
         if not np.any(x) and not np.any(y) and p["norm"] != "coeff" and np.any(r != 0):
             out.append("CORRELATION of all-zero records is not exactly zero (norm=%s)" % p["norm"])
         if p["auto"] and p["norm"] == "biased":
@@ -219,6 +305,13 @@ def oracle_xcorr(p):
     if rel(r.astype(complex), e) > 1e-10:
         out.append("xcorr(%s, norm=%s, N=%d, maxlags=%s, call=%s, %s/%s) differs from the definition" % (
             "auto" if p["auto"] else "cross", p["norm"], N, p["maxlags"], p.get("call", "kw"), _cls(p["x"]), _cls(p.get("y"))))
+    B, Gf = _lagscale(x, y, range(-ml, ml + 1), p["norm"], LAGFLOOR)
+    w = _perlag(r, e, B, Gf, TOL_LAG)
+    if w:
+        out.append("xcorr(%s, norm=%s, N=%d, maxlags=%s, call=%s, %s/%s) lag %d differs from its definition relative to that lag's "
+                   "own scale: got %r expected %r (|diff| %.3e, scale %.3e)" % (
+                       "auto" if p["auto"] else "cross", p["norm"], N, p["maxlags"], p.get("call", "kw"), _cls(p["x"]),
+                       _cls(p.get("y")), w[0] - ml, complex(r[w[0]]), complex(e[w[0]]), w[1], w[2]))
     if not np.any(x) and not np.any(y) and p["norm"] != "coeff" and np.any(r != 0):
         out.append("xcorr of all-zero records is not exactly zero (norm=%s)" % p["norm"])
     # consistency with CORRELATION at non-negative lags (all of them up to N = 300; the first 61 of a longer record, where
@@ -228,6 +321,13 @@ def oracle_xcorr(p):
     rc = sp.CORRELATION(p["x"], None if p["auto"] else p["y"], maxlags=mc, norm=p["norm"])
     if rel(r[ml: ml + mc + 1].astype(complex), np.asarray(rc).astype(complex)) > 1e-10:
         out.append("xcorr and CORRELATION disagree at non-negative lags (norm=%s)" % p["norm"])
+    # ... and lag by lag, each on its own scale
+    w = _perlag(r[ml: ml + mc + 1], rc, B[ml: ml + mc + 1], Gf[ml: ml + mc + 1], TOL_LAG)
+    if w:
+        out.append("xcorr and CORRELATION disagree at lag %d relative to that lag's own scale (norm=%s, N=%d, maxlags=%s, %s): "
+                   "xcorr %r CORRELATION %r (|diff| %.3e, scale %.3e)" % (
+                       w[0], p["norm"], N, p["maxlags"], "auto" if p["auto"] else "cross", complex(r[ml + w[0]]), complex(np.asarray(rc)[w[0]]),
+                       w[1], w[2]))
     return out
 
 
@@ -280,6 +380,20 @@ def oracle_mtx(p):
         if rel(G, N * toeplitz(re, np.conj(re))) > 1e-10:
             out.append("Gram matrix of the 'autocorrelation' data matrix != N * Toeplitz of the defined biased "
                        "autocorrelation, entry (i, j) = r[i-j] (N=%d m=%d)" % (N, m))
+        # entry by entry, each relative to the scale of its own lag |i-j| (against the definition and against CORRELATION)
+        B, Gf = _lagscale(xd, xd, range(m + 1), "biased", 0.0)
+        ii, jj = np.indices((m + 1, m + 1))
+        kk = np.abs(ii - jj)
+        for nm_, rr in (("the defined biased autocorrelation", re), ("CORRELATION(norm='biased')", np.asarray(r))):
+            if G.shape != (m + 1, m + 1) or len(rr) != m + 1:
+                break
+            w = _perlag(G.ravel(), (N * toeplitz(rr, np.conj(rr))).ravel(), (N * B)[kk].ravel(), (N * Gf)[kk].ravel(), TOL_LAG)
+            w2 = _perlag(G.ravel(), (N * toeplitz(np.conj(rr), rr)).ravel(), (N * B)[kk].ravel(), (N * Gf)[kk].ravel(), TOL_LAG)
+            if w and (w2 or nm_.startswith("the defined")):
+                i_, j_ = divmod(w[0], m + 1)
+                out.append("Gram matrix of the 'autocorrelation' data matrix: entry (%d, %d) != N * r[%d] of %s relative to "
+                           "that lag's own scale (N=%d m=%d): got %r expected %r (|diff| %.3e, scale %.3e)" % (
+                               i_, j_, i_ - j_, nm_, N, m, complex(G[i_, j_]), complex(N * toeplitz(rr, np.conj(rr))[i_, j_]), w[1], w[2]))
     return out
 
 
@@ -319,11 +433,32 @@ def _tags(p):
                                  ("half" if p.get("maxlags") == N // 2 else "few")))
     if not np.any(x):
         t.append("zero-energy")
+    t += _blk_tags(N)
+    if p.get("gen"):
+        t.append("data:generic-doubles:" + p["gen"])
     return t
 
 
+def _blk(N):
+    """(B, q, r) with N = q * B + r, B in {1024, 2048, 4096, 8192, 65536}, q in 1..3, 0 <= r <= 8, or None.  The smallest such B:
+    2 * 2^k + r = 1 * 2^(k+1) + r is counted under the smaller block"""
+    for B in (1024, 2048, 4096, 8192, 65536):
+        q, r = divmod(N, B)
+        if 1 <= q <= 3 and r <= 8:
+            return B, q, r
+    return None
+
+
+def _blk_tags(N):
+    b = _blk(N)
+    if not b:
+        return []
+    return ["blk:N=q*2^k+r", "blk:2^%d" % (b[0].bit_length() - 1), "blk:q=%d" % b[1], "blk:r=%d" % b[2]]
+
+
 def _mtx_tags(p):
-    return ["mtx:" + p["method"], "dtype:%s" % _cls(p["x"])] + (["mtx:m=0"] if p["m"] == 0 else [])
+    return (["mtx:" + p["method"], "dtype:%s" % _cls(p["x"])] + (["mtx:m=0"] if p["m"] == 0 else [])
+            + ["mtx:" + t for t in _blk_tags(len(p["x"]))])
 
 
 _NT = lambda p: len(p["x"]) >= 2       # noqa: E731
@@ -338,6 +473,8 @@ KINDS = {
     # records longer than 600 samples: statement against the definition only (see PARTIAL)
     "corr_o": {"oracle": oracle_corr, "key": _key, "tags": _tags, "nontrivial": _NT},
     "xcorr_o": {"oracle": oracle_xcorr, "key": _key, "tags": _tags, "nontrivial": _NT},
+    # data matrix of a long record (N + m rows): Gram clause against the definition only
+    "corrmtx_o": {"oracle": oracle_mtx, "key": _key, "tags": _mtx_tags, "nontrivial": _NT},
     # one input in single precision, the other in doubles (unequal lengths): the lag products are formed in doubles, the
     # padding of the shorter input keeps its type; compared with the definition on the same sample values at 1e-6
     "corr_sp": {"impl": impl_corr, "model": model_corr, "oracle": _oracle_corr(1e-6), "rtol": 1e-6, "atol": 1e-300,
@@ -392,6 +529,68 @@ def _pick_ml(nrng, N):
 
 
 KINDS["single"] = single.kind("C09")
+
+# --------------------------------------------------------------------------------------------------
+# long records at and just above block-size boundaries: N = q * 2^k + r.  An implementation that forms the lag sums block
+# by block (numpy.dot over chunks, overlap-add, a size-gated fast path) has its off-by-one errors exactly where the number
+# of products N - k of a lag is a multiple of the block size (+- 1); with maxlags <= 8 and r <= 8 the lags of one call
+# sweep N - k over q * 2^k + r - 8 .. q * 2^k + r, i.e. across the boundary.
+BLK_B = [1024, 2048, 4096, 8192]
+BLK_Q = [1, 2, 3]
+BLK_R = [0, 1, 2, 3, 5, 8]
+# exact-rational model (its lag sums cost O(N^2) list steps: 0.06 s at N = 1024, 0.25 s at 2048, 1 s at 4100): records up
+# to this length, plus one record just above 4096 per generator run; longer ones against the definition only
+BLK_MODEL_N = 2100
+GENERIC = ["noise", "tone", "trend", "dyn"]
+
+
+def _long_data(nrng, N, cplx, exact, c):
+    """exact: the dyadic classes of _data; otherwise generic doubles (products and sums are rounded)"""
+    if exact:
+        return _data(nrng, N, cplx, c), None
+    k = GENERIC[c % 4]
+    x, _ = gen_data(nrng, N, cplx, kind=k, exact=False)
+    return np.asarray(x, dtype=complex if cplx else float), k
+
+
+def _blk_cases(nrng, lengths, model_extra, with_mtx=True):
+    """lengths: list of N.  Per length one CORRELATION case; an xcorr case when the two records have equal length; a
+    corrmtx 'autocorrelation' Gram case for every other length.  mode (auto / cross equal / cross y shorter / cross x
+    shorter) = i mod 4, norm = (i div 4) mod 4 (both shifted by offsets drawn per generator run), real / complex and
+    dyadic / generic data by balanced random permutations."""
+    o = [int(v) for v in nrng.integers(0, 48, 2)]
+    n2 = (len(lengths) + 1) // 2
+    cplxs = nrng.permutation([False, True] * n2)        # balanced, crossed at random with mode and norm
+    exacts = nrng.permutation([False, True] * n2)
+    for i, N in enumerate(lengths):
+        r_ = _blk(N)[2] if _blk(N) else 0
+        mode = (i + o[0]) % 4
+        norm = NORMS[(i // 4 + o[1]) % 4]
+        cplx = bool(cplxs[i])
+        use_model = N <= BLK_MODEL_N or N in model_extra
+        exact = use_model or bool(exacts[i])
+        ml = 8 if int(nrng.integers(0, 4)) else min(8, r_ + 1)
+        c = int(nrng.integers(0, 20))
+        auto = mode == 0
+        if norm == "coeff" and not auto:
+            norm = "biased"
+        # the shorter record of an unequal pair: a few samples short (the padding starts inside the last products of
+        # the small lags) or much shorter
+        ns = N - 1 - int(nrng.integers(0, 3)) if int(nrng.integers(0, 2)) else max(2, N // 3 + int(nrng.integers(0, 7)))
+        nx, ny = {0: (N, N), 1: (N, N), 2: (N, ns), 3: (ns, N)}[mode]
+        x, g = _long_data(nrng, nx, cplx, exact, c)
+        q = {"x": x, "auto": auto, "norm": norm, "maxlags": ml}
+        if not auto:
+            # one in four pairs mixes a real and a complex record
+            q["y"], _ = _long_data(nrng, ny, cplx if int(nrng.integers(0, 4)) else not cplx, exact, c + 1 + int(nrng.integers(0, 3)))
+        if g:
+            q["gen"] = g
+        yield ("corr" if use_model else "corr_o", q)
+        if nx == ny:
+            yield ("xcorr" if use_model and N <= BLK_MODEL_N else "xcorr_o", dict(q))
+        if with_mtx and (i + o[0] // 4) % 2 == 0:
+            xm, g = _long_data(nrng, N, bool(cplxs[i - 1]), bool(exacts[i - 1]), c + 2)
+            yield ("corrmtx_o", {"x": xm, "m": ml, "method": "autocorrelation"})
 
 
 def gen(rng, nrng, tier):
@@ -629,3 +828,18 @@ def _gen(rng, nrng, tier):
                 yield ("corrmtx", {"x": x, "m": 0, "method": method})
                 if N == 6 and cplx:
                     yield ("corrmtx", {"x": _contain(nrng, N, CONT[j]), "m": 0, "method": method})
+    # long records at and just above block-size boundaries (see BLK_B above).  quick: per (2^k, q) two of the six residues,
+    # rotating with the run, so that every 2^k is met with all six residues in every run (24 lengths); thorough: all 72
+    # lengths in every round, plus two of the six lengths 2^16 + r
+    rot = int(nrng.integers(0, 6))
+    lengths = []
+    extra = set()
+    for b, B in enumerate(BLK_B):
+        for qi, qq in enumerate(BLK_Q):
+            j = 3 * b + qi
+            rs = BLK_R if thorough else [BLK_R[(rot + 2 * j) % 6], BLK_R[(rot + 2 * j + 1) % 6]]
+            lengths += [qq * B + r for r in rs]
+    extra.add([N for N in lengths if 4096 <= N <= 4104][rot % 2])
+    yield from _blk_cases(nrng, lengths, extra)
+    if thorough:
+        yield from _blk_cases(nrng, [65536 + BLK_R[(rot + 3 * j) % 6] for j in range(2)], set(), with_mtx=False)
